@@ -1,14 +1,20 @@
 #!/opt/veriftools/pyvenv/bin/python
-"""usage: tools/calibrate_floors.py <tier>  -- sets every event floor of that tier to half of what the
-last run (evidence/<ID>.json of that tier) observed on the unchanged tree; writes config/floors.json."""
+"""usage: tools/calibrate_floors.py <tier> [factor] [ids...]  -- sets every event floor of that tier to
+`factor` (default 0.5) of what the last run (evidence/<ID>.json of that tier) observed on the unchanged
+tree; writes config/floors.json. The thorough tier is calibrated with 0.25: its runs are bounded by the
+soft deadline rather than by the case budget when the machine is busy."""
 import json, os, sys
 V = os.path.dirname(os.path.dirname(os.path.abspath(__file__)))
 sys.path.insert(0, os.path.join(V, "monitors"))
 import propmeta
 tier = sys.argv[1]
+factor = float(sys.argv[2]) if len(sys.argv) > 2 else 0.5
+only = set(sys.argv[3:])
 p = os.path.join(V, "config", "floors.json")
 cur = json.load(open(p)) if os.path.exists(p) else {}
 for pid, m in sorted(propmeta.META.items()):
+    if only and pid not in only:
+        continue
     ev = os.path.join(V, "evidence", pid + ".json")
     if not os.path.exists(ev):
         continue
@@ -24,7 +30,7 @@ for pid, m in sorted(propmeta.META.items()):
             got = e["coverage"]["distinct_nontrivial"]
         else:
             got = obs.get(key, 0)
-        new[key] = int(got * 0.5)
+        new[key] = int(got * factor)
     cur.setdefault(pid, {})[tier] = new
     print(pid, tier, new)
 json.dump(cur, open(p, "w"), indent=1, sort_keys=True)
